@@ -21,7 +21,7 @@ Three things are run on the real `menelaus.concept_drift.LinearFourRates`:
 Every implementation call is preceded by `np.random.seed(seed_i)` with
 `seed_i = H(VERIF_SEED, case, i)`, on each side of a twin run.
 """
-import copy, hashlib, itertools, json, math
+import os, copy, hashlib, itertools, json, math
 import numpy as np
 import core
 
@@ -588,6 +588,30 @@ def _run(ctx, LFR, tap):
         ctx.count("long.tested_steps", sum(1 for k in range(len(tr)) if k + 1 > cfg["burn_in"]))
         ctx.count("long.state.D", sum(1 for o in tr if o["state"] == "D"))
 
+    # ---- C2b. one very long history in few epochs (strict levels): thousands of distinct (rounded rate, denominator) keys pass
+    # through the bounds cache of ONE detector -- a cap, an eviction or a nearest-key lookup in that cache shows only here.
+    # Judged by the declarative specification (Spec) with the recorded draws; not sent to the Lean model (see run_case).
+    deep = (not quick) or os.environ.get("VERIF_C06_VERYLONG") == "1"
+    lcfg = {"eta": 0.9, "warn": 0.01, "detect": 0.001, "burn_in": 50, "num_mc": 100 if deep else 15, "subsample": 1, "round_val": 4,
+            "tracked": list(RATES)}
+    lrng = np.random.default_rng([ctx.seed, 606])
+    nlong = 3300 if deep else 500
+    nA = nlong * 4 // 5
+    lseq = []
+    for i in range(nA):                      # phase A: one long, nearly stationary stretch (rates in a narrow band, ever larger denominators)
+        yt = int(lrng.integers(2))
+        lseq.append((yt, yt if lrng.random() < (0.72 if i < nA // 2 else 0.8) else 1 - yt))
+    acc = 0.15
+    for i in range(nlong - nA):              # phase B: regimes of 35 samples far from that band: short epochs, small denominators again
+        if i % 35 == 0:
+            acc = float(lrng.choice([0.1, 0.2, 0.35, 0.5, 0.9]))
+        yt = int(lrng.random() < 0.5)
+        lseq.append((yt, yt if lrng.random() < acc else 1 - yt))
+    ltr = run_case(R, ("verylong", 0), lcfg, lseq, register=False, model=False)
+    ctx.count("verylong.updates", len(ltr))
+    ctx.count("verylong.simulations", sum(len(o["blocks"]) for o in ltr))
+    ctx.case(("verylong", nlong), True)
+
     # ---- C3. parallelize=True is the same detector (relation on the real class)
     parallel_twins(ctx, LFR, tap)
 
@@ -609,12 +633,20 @@ def _run(ctx, LFR, tap):
             raise core.Infra("degenerate input distribution: no occurrence of " + ", ".join(missing))
 
 
-def run_case(R, case, cfg, seq, register=True):
-    """sequential history: implementation + specification clauses, and op lines for the model"""
+def run_case(R, case, cfg, seq, register=True, model=True):
+    """sequential history: implementation + specification clauses, and op lines for the model (model=False: the history is
+    judged by the declarative specification only -- very long epochs would send 10^8 recorded draws through the line protocol)"""
     ctx = R.ctx
     seeds = [H(ctx.seed, case, i) for i in range(len(seq))]
     det = make_impl(R.LFR, cfg)
     spec = Spec(cfg)
+    if not model:
+        R0 = R
+
+        class _NoModel:
+            def __getattr__(self, k): return getattr(R0, k)
+            def emit(self, *a, **k): pass
+        R = _NoModel()
     R.emit(cfg_new_line(cfg))
     trace = []
     epochs = 1
